@@ -98,6 +98,24 @@ def check(tier="quick", seed=0):
         "    except Exception as e:\n"
         "        out['%%d.%%d' %% v] = 'EXC %%s: %%s' %% (type(e).__name__, e)\n"
         "print(json.dumps(out))\n" % (CATS,))
+    # second exchange, in a fresh process: a relative jump and a name opcode swap numbers; every category must then hold the
+    # same opcode *names* as before (the numbers follow the names) and the threshold stays the lowest operand-taking number
+    prog2 = (
+        "import sys, json\n"
+        "from xdis.disasm import get_opcode\n"
+        "v = tuple(int(x) for x in sys.argv[1].split('.'))\n"
+        "base = get_opcode(v, False)\n"
+        "cats = %r\n"
+        "before = dict((c, sorted(base.opname[o] for o in getattr(base, c))) for c in cats)\n"
+        "n1 = base.opname[sorted(base.hasjrel)[0]]; n2 = base.opname[sorted(base.hasname)[0]]\n"
+        "have = base.HAVE_ARGUMENT\n"
+        "alt = {n1: base.opmap[n2], n2: base.opmap[n1]}\n"
+        "try:\n"
+        "    m = get_opcode(v, False, alt)\n"
+        "    after = dict((c, sorted(m.opname[o] for o in getattr(m, c))) for c in cats)\n"
+        "    print(json.dumps([n1, n2, have, m.HAVE_ARGUMENT, [c for c in cats if before[c] != after[c]], m.opmap[n1] == alt[n1] and m.opname[alt[n1]] == n1]))\n"
+        "except Exception as e:\n"
+        "    print(json.dumps('EXC %%s: %%s' %% (type(e).__name__, e)))\n" % (CATS,))
     env = dict(os.environ, PYTHONPATH=os.environ.get("XDIS_REPO", "/repo"), PYTHONDONTWRITEBYTECODE="1")
     q = subprocess.run([sys.executable, "-c", prog], capture_output=True, text=True, env=env, timeout=300)
     try:
@@ -112,5 +130,18 @@ def check(tier="quick", seed=0):
         ob("remap/%s/HAVE_ARGUMENT-unchanged" % ver, r[0] == r[1], key="remap:%s:HAVE_ARGUMENT" % ver, detail={"before": r[0], "after": r[1]})
         ob("remap/%s/categories-unchanged" % ver, bool(r[2]), key="remap:%s:categories" % ver)
         ob("remap/%s/names-follow-numbers" % ver, bool(r[3]), key="remap:%s:names" % ver)
+    for ver in ("2.7", "3.6", "3.8", "3.10", "3.12", "3.13"):
+        q2 = subprocess.run([sys.executable, "-c", prog2, ver], capture_output=True, text=True, env=env, timeout=300)
+        try:
+            r = json.loads(q2.stdout)
+        except Exception:
+            ob("remap2/%s/ran" % ver, False, key="remap2:" + ver, detail={"stderr": q2.stderr[-300:]})
+            continue
+        if isinstance(r, str):
+            ob("remap2/%s/completes" % ver, False, key="remap2:" + ver, detail={"error": r})
+            continue
+        ob("remap2/%s/HAVE_ARGUMENT-unchanged" % ver, r[2] == r[3], key="remap2:%s:HAVE_ARGUMENT" % ver, detail={"swapped": r[:2], "before": r[2], "after": r[3]})
+        ob("remap2/%s/categories-follow-names" % ver, not r[4], key="remap2:%s:categories" % ver, detail={"swapped": r[:2], "categories that changed their names": r[4]})
+        ob("remap2/%s/names-follow-numbers" % ver, bool(r[5]), key="remap2:%s:names" % ver, detail={"swapped": r[:2]})
     return {"name": "ground.c09", "kind": "ground", "obligations": obl, "violations": vio, "evaluations": len(obl),
             "assumptions": ["reference = `opcode` module of the installed CPython 2.7.18, 3.6.15, 3.7.16, 3.8.18, 3.9.18, 3.10.13, 3.11.7, 3.12.1, 3.13.0; tables of other versions / PyPy variants: invariants only (no reference in the sandbox)"]}
